@@ -1,15 +1,16 @@
 #!/bin/bash
-# try_seed.sh <patch.diff> <check id> [more ids...]: apply a seeded change to /repo, run the checks
-# (in parallel), undo the change.  TIER=quick|thorough.  Output: one line per check.
-P=$1; shift
-git -C /repo diff --quiet || { echo "/repo is dirty"; exit 2; }
-git -C /repo apply "$P" || exit 2
+# try_seed.sh <patch.diff> <check id> [more ids...]: run checks against a scratch copy of /repo's HEAD with the
+# seeded change applied (VERIF_REPO), so /repo itself is never touched.  TIER=quick|thorough.
+P=$(readlink -f "$1"); shift
 TAG=$(echo "$P" | tr '/' '_' | tr -d '.')
+D=$(mktemp -d /tmp/mut_XXXXXX)
+git -C /repo archive HEAD | tar -x -C $D || exit 2
+( cd $D && git init -q . && git apply "$P" ) || { echo "patch does not apply"; rm -rf $D; exit 2; }
 for C in "$@"; do
-  ( /verif/check $C --tier ${TIER:-quick} > /tmp/try_${TAG}_$C.log 2>&1; rc=$?
+  ( VERIF_REPO=$D VERIF_EVIDENCE_DIR=$D/evidence /verif/check $C --tier ${TIER:-quick} > /tmp/try_${TAG}_$C.log 2>&1; rc=$?
     echo "== $P $C exit=$rc $(grep -c VIOLATION /tmp/try_${TAG}_$C.log) violation line(s)"
     grep -A1 -m2 "VIOLATION" /tmp/try_${TAG}_$C.log | grep -v "^--" | cut -c1-300
     grep -m2 "MACHINERY" /tmp/try_${TAG}_$C.log ) &
 done
 wait
-git -C /repo checkout -- .
+rm -rf $D
